@@ -20,6 +20,10 @@ CMP = ["EqOSet", "Le", "Lt", "Ge", "Gt"]
 
 
 def gen_iterable(rng):
+    if rng.random() < 0.12:
+        # the argument aliases the receiver: the set itself, an iterator or a lazy generator over it
+        fl = rng.choice(["self", "self_iter", "self_gen"])
+        return ("KSet" if fl == "self" else "KIter", [], fl)
     kind = rng.choice(["KList", "KSet", "KIter", "KIter", "KList"])
     n = rng.choice([0, 1, 2, 3, 4, 6])
     codes = [rng.randrange(len(UNIVERSE)) for _ in range(n)]
@@ -56,10 +60,19 @@ def gen_history(rng, n_ops):
 
 
 # ---------------------------------------------------------------------------------------------
-def materialise(it, OrderedSet, FrozenOrderedSet):
+def materialise(it, OrderedSet, FrozenOrderedSet, recv=None, opname=""):
     """Build the real Python argument.  For real sets the iteration order is not the list order;
     return the order a traversal yields so that the model sees the same sequence."""
     kind, codes, flavour = it
+    if flavour.startswith("self"):
+        now = [UNIVERSE.index(v) for v in recv]
+        if flavour == "self" or opname == "ISub":
+            # `s -= <lazy view of s>` mutates while iterating and raises RuntimeError exactly like
+            # Python's built-in set; outside the generator (see notes/C34.md)
+            return recv, now
+        if flavour == "self_iter":
+            return iter(recv), now
+        return (x for x in recv), now
     vals = [UNIVERSE[c] for c in codes]
     if flavour == "list":
         return vals, codes
@@ -93,8 +106,9 @@ def run_impl(init, ops):
         obs_op = op
         try:
             if name in UPD or name in QRY1:
-                arg, order = materialise(op[1], OrderedSet, FrozenOrderedSet)
-                obs_op = (name, (op[1][0], order, op[1][2]))
+                arg, order = materialise(op[1], OrderedSet, FrozenOrderedSet, s, name)
+                k_ = "KSet" if (op[1][2] == "self" or (op[1][2].startswith("self") and name == "ISub")) else op[1][0]
+                obs_op = (name, (k_, order, op[1][2]))
                 if name == "Update":
                     s.update(arg)
                 elif name == "IntersectionUpdate":
@@ -121,8 +135,8 @@ def run_impl(init, ops):
                 elif name == "Sub":
                     out = ("OList", [enc(v) for v in (s - arg)])
             elif name in MULTI_UPD or name in QRYN:
-                mats = [materialise(it, OrderedSet, FrozenOrderedSet) for it in op[1]]
-                obs_op = (name, [(it[0], m[1], it[2]) for it, m in zip(op[1], mats)])
+                mats = [materialise(it, OrderedSet, FrozenOrderedSet, s, name) for it in op[1]]
+                obs_op = (name, [("KSet" if it[2] == "self" else it[0], m[1], it[2]) for it, m in zip(op[1], mats)])
                 args = [m[0] for m in mats]
                 if name == "DifferenceUpdate":
                     s.difference_update(*args)
@@ -176,7 +190,7 @@ def run_impl(init, ops):
                 import copy
 
                 out = ("OList", [enc(v) for v in copy.copy(s)] if len(s) % 2 else [enc(v) for v in FrozenOrderedSet(s)])
-        except (IndexError, KeyError, ValueError, TypeError) as e:
+        except (IndexError, KeyError, ValueError, TypeError, RuntimeError) as e:
             out = ("OErr", type(e).__name__)
         hist.append((obs_op, [enc(v) for v in s], out))
     return hist
@@ -320,7 +334,7 @@ def c_out(o):
         return f"C34.OInt {cZ(o[1])}"
     if o[0] == "OList":
         return f"C34.OList {clist(cZ(c) for c in o[1])}"
-    return f"C34.OErr C34.{o[1]}"
+    return f"C34.OErr C34.{o[1] if o[1] != 'RuntimeError' else 'TypeError'}"
 
 
 def c_case(init, hist):
